@@ -30,7 +30,7 @@ ANCHORS = [
     "acnportal.acnsim.analysis:aggregate_current",
     "acnportal.acnsim.analysis:total_energy_delivered",
 ]
-REQUIRED = ["resumed_runs_judged", "resumed_after_json", "stochastic_runs_judged", "stochastic_runs_with_early_departure", "stochastic_cells_checked", "runs_judged", "sessions_reconciled", "charge_calls_logged", "vacant_cells_checked", "vacant_station_pilots",
+REQUIRED = ["runs_with_scheduler_trial_charging_its_copies", "resumed_runs_judged", "resumed_after_json", "stochastic_runs_judged", "stochastic_runs_with_early_departure", "stochastic_cells_checked", "runs_judged", "sessions_reconciled", "charge_calls_logged", "vacant_cells_checked", "vacant_station_pilots",
             "battery_json_dumps", "regime:heterogeneous-voltage", "regime:noise-battery", "regime:two-stage", "regime:ideal"]
 BUDGET_S = {"quick": 240, "thorough": 3000}
 
@@ -69,7 +69,7 @@ def cases(seed, tier):
             d = gen.scenario(rng, sched="uncontrolled", noise_p=0.3)
         else:
             d = gen.scenario(rng, sched="sorted", kinds=("EVSE", "FR"), noise_p=0.3)
-        out.append({"desc": d})
+        out.append({"desc": d, "meddle": rng.random() < 0.15})
     for i in range(n // 6):
         d = gen.scenario(rng, sched=rng.choice(["scripted", "uncontrolled"]), noise_p=0.0)
         out.append({"desc": d, "resumed_at": rng.choice([1, 2, 4, 7])})
@@ -246,9 +246,30 @@ def run_case(case, obs):
     if case.get("resumed_at") is not None:
         return _run_resumed(case, obs)
     d = case["desc"]
+    sch = None
+    if case.get("meddle") and d["scheduler"]["kind"] == "scripted":
+        # a look-ahead scheduler: trial-charges (and resets) the EV copies it is handed through the public accessor; the
+        # ledger of the real sessions must not notice
+        sch = build.build_scheduler(d)
+
+        def meddle(self, t, active_sessions):
+            with warnings.catch_warnings():
+                warnings.simplefilter("ignore")
+                handed = self.interface.active_evs
+            LOG["cur"], keep = None, LOG["cur"]   # trial charges on copies are not part of the real ledger
+            try:
+                for ev in handed:
+                    ev.charge(32, 208, d["period"])
+                    if t % 3 == 0:
+                        ev.reset()
+            finally:
+                LOG["cur"] = keep
+
+        sch.hook = meddle
+        obs.ev("runs_with_scheduler_trial_charging_its_copies")
     LOG["cur"] = log = []
     try:
-        sim, evs, probe = simrun.run_traced(d)
+        sim, evs, probe = simrun.run_traced(d, scheduler=sch)
     finally:
         LOG["cur"] = None
     wit = dict(scenario=d)
